@@ -241,10 +241,19 @@ def coq_eval_text(scratch, header, expr, timeout=120):
 # known findings
 #
 def load_known():
+    """Recorded findings: known_findings.json plus the per-property fragments
+    props/Cxx.findings.json it is assembled from (tools/mkmanifest.py)."""
+    out = []
     p = os.path.join(VERIF, 'known_findings.json')
-    if not os.path.exists(p):
-        return []
-    return json.load(open(p)).get('findings', [])
+    if os.path.exists(p):
+        out.extend(json.load(open(p)).get('findings', []))
+    d = os.path.join(VERIF, 'props')
+    for f in sorted(os.listdir(d)) if os.path.isdir(d) else []:
+        if f.endswith('.findings.json'):
+            for k in json.load(open(os.path.join(d, f))).get('findings', []):
+                if k not in out:
+                    out.append(k)
+    return out
 
 
 def known_match(prop_id, signature, known):
